@@ -21,6 +21,12 @@ pub struct State {
     /// Optional: the only valid memory (half-open address ranges); any access that is not completely
     /// inside one range aborts the run (like a segmentation fault)
     pub valid_ranges: Option<Vec<(u64, u64)>>,
+    /// Optional: address ranges (half-open) that count as ordinary memory; a load from any other address
+    /// "poisons" its destination (the loaded value is outside what an analysis with an empty memory image
+    /// models). Poison propagates through assignments, stores and loads; observers skip poisoned variables.
+    pub unpoisoned_ranges: Option<Vec<(u64, u64)>>,
+    pub poison_vars: std::collections::BTreeSet<String>,
+    pub poison_mem: std::collections::BTreeSet<u64>,
 }
 
 #[derive(Clone, Debug, PartialEq, Eq, Hash)]
@@ -62,7 +68,7 @@ pub enum Stop {
 
 impl State {
     pub fn new(mem_seed: u64) -> State {
-        State { vars: BTreeMap::new(), mem: BTreeMap::new(), mem_seed, null_guard: None, valid_ranges: None }
+        State { vars: BTreeMap::new(), mem: BTreeMap::new(), mem_seed, null_guard: None, valid_ranges: None, unpoisoned_ranges: None, poison_vars: Default::default(), poison_mem: Default::default() }
     }
     pub fn set(&mut self, name: &str, v: u128, size: usize) {
         self.vars.insert(name.to_string(), rs::val(v, size));
@@ -238,10 +244,26 @@ pub fn run_sub(sub: &Term<Sub>, state: &mut State, regs: &[Variable], limits: &L
                     let v = state.eval(value);
                     let w = u64::from(var.size) as usize;
                     state.vars.insert(var.name.clone(), rs::val(v.v, w));
+                    if state.unpoisoned_ranges.is_some() {
+                        if value.input_vars().iter().any(|x| state.poison_vars.contains(&x.name)) {
+                            state.poison_vars.insert(var.name.clone());
+                        } else {
+                            state.poison_vars.remove(&var.name);
+                        }
+                    }
                 }
                 Def::Load { var, address } => {
                     let a = state.eval(address).v as u64;
                     let w = u64::from(var.size) as usize;
+                    if let Some(rs_) = &state.unpoisoned_ranges {
+                        let ordinary = rs_.iter().any(|(lo, hi)| a >= *lo && a.wrapping_add(w as u64) <= *hi);
+                        let tainted = !ordinary || (0..w as u64).any(|i| state.poison_mem.contains(&a.wrapping_add(i))) || address.input_vars().iter().any(|x| state.poison_vars.contains(&x.name));
+                        if tainted {
+                            state.poison_vars.insert(var.name.clone());
+                        } else {
+                            state.poison_vars.remove(&var.name);
+                        }
+                    }
                     if ptr_null_only(state, a) || invalid(state, a, w) {
                         return Run { events, stop: Stop::NullAccess, blocks: blocks_run, callother_returns: co_returns };
                     }
@@ -254,6 +276,16 @@ pub fn run_sub(sub: &Term<Sub>, state: &mut State, regs: &[Variable], limits: &L
                     let v = state.eval(value);
                     if ptr_null_only(state, a) || invalid(state, a, v.w) {
                         return Run { events, stop: Stop::NullAccess, blocks: blocks_run, callother_returns: co_returns };
+                    }
+                    if state.unpoisoned_ranges.is_some() {
+                        let tainted = value.input_vars().iter().any(|x| state.poison_vars.contains(&x.name)) || address.input_vars().iter().any(|x| state.poison_vars.contains(&x.name));
+                        for i in 0..v.w as u64 {
+                            if tainted {
+                                state.poison_mem.insert(a.wrapping_add(i));
+                            } else {
+                                state.poison_mem.remove(&a.wrapping_add(i));
+                            }
+                        }
                     }
                     state.write_mem(a, v.w, v.v);
                     events.push(Event::Write { addr: a, size: v.w, val: v.v });
